@@ -35,8 +35,9 @@ def hasLines : Box → Bool | mk _ _ _ _ _ _ _ l _ => l
 def children : Box → List Box | mk _ _ _ _ _ _ _ _ c => c
 /-- `absoluteAndZIndex || opacity < 1 || transform || overflow != visible` -/
 def makesContext (b : Box) : Bool := (b.positioned && b.z.isSome) || b.ctx
-/-- StackingContext.zIndex: auto counts as 0 -/
-def zIndex (b : Box) : Int := b.z.getD 0
+/-- StackingContext.zIndex: auto counts as 0, and z-index applies to positioned boxes only
+    (`applies := position != static || IsFlexItem || IsGridItem`; flex and grid items are outside this model) -/
+def zIndex (b : Box) : Int := if b.positioned then b.z.getD 0 else 0
 end Box
 
 /-- a child context: (z-index, what drawing it paints) -/
